@@ -472,6 +472,86 @@ theorem c15_chrome_balanced (tids : List Nat) (recs : List Rec) (hw : WF RS.init
     rw [h1']
     simpa [ht] using h2
 
+/-- "Stamped with the record time in microseconds", for EVERY time (no bound: any 64-bit value and
+    beyond): the stamp `tsText t` is `<digits>.<three digits>`, and read back with exact integer
+    arithmetic the number it denotes, times 1000, is the record time: int part * 1000 + fraction = t.
+    (`evText` prints `{"ts":` ++ tsText e.time ++ `,"ph":…` for the B and the E event alike.) -/
+theorem c15_chrome_ts_exact (t : Nat) :
+    ∃ ip fp, tsText t = ip ++ [46] ++ fp ∧ ip ≠ [] ∧ allDigits ip = true ∧ allDigits fp = true ∧
+      fp.length = 3 ∧ digitsVal ip * 1000 + digitsVal fp = t := by
+  obtain ⟨a, b, c⟩ := dec_val (t / 1000)
+  obtain ⟨d, e, f⟩ := pad3_val (t % 1000) (Nat.mod_lt _ (by decide))
+  exact ⟨dec (t / 1000), pad3 (t % 1000), rfl, c, b, e, f, by rw [a, d]; omega⟩
+
+/-- … hence two records whose times differ, be it by one nanosecond at 2^53 or at 2^64 - 1, never
+    get the same stamp -/
+theorem c15_chrome_ts_injective (t t' : Nat) (h : tsText t = tsText t') : t = t' := by
+  have hl : (pad3 (t % 1000)).length = (pad3 (t' % 1000)).length := rfl
+  have h0 : (dec (t / 1000) ++ [46]) ++ pad3 (t % 1000) = (dec (t' / 1000) ++ [46]) ++ pad3 (t' % 1000) := h
+  obtain ⟨h1, h2⟩ := List.append_inj' h0 hl
+  have h3 : dec (t / 1000) = dec (t' / 1000) := (List.append_inj' h1 rfl).1
+  have e1 := congrArg digitsVal h3
+  have e2 := congrArg digitsVal h2
+  rw [(dec_val _).1, (dec_val _).1] at e1
+  rw [(pad3_val _ (Nat.mod_lt _ (by decide))).1, (pad3_val _ (Nat.mod_lt _ (by decide))).1] at e2
+  omega
+
+/-- the stamps of 2^53 + 1 ns (where a double loses the last bit) and of the largest 64-bit time -/
+example : tsText 9007199254740993 = b!"9007199254740.993" ∧
+    tsText 18446744073709551615 = b!"18446744073709551.615" := by decide
+
+/-! ## times shown by `uftrace graph` (print_time_unit) -/
+
+/-- C15-TIMEUNIT repaired (`limit[] = {1000, 1000, 1000, 60, 60, INT_MAX}`): for every non-zero time
+    below 1000 hours, what `uftrace graph` (and replay / report, which share the printer) shows as
+    "W.FFF unit" denotes the time rounded down to the three-digit step of the unit: W units plus FFF
+    steps (ns for us, us for ms, ms for s, seconds for m, minutes for h) is at most the time, and
+    less than one step below it. -/
+theorem c15_time_unit_exact (ns : Nat) (hlt : ns < 3600000000000000) :
+    let r := timeUnit true ns
+    r.2.2 ≤ 4 ∧ r.2.1 * subNs r.2.2 < unitNs r.2.2 ∧
+    r.1 * unitNs r.2.2 + r.2.1 * subNs r.2.2 ≤ ns ∧
+    ns < r.1 * unitNs r.2.2 + (r.2.1 + 1) * subNs r.2.2 :=
+  timeUnit_fixed_exact ns hlt
+
+example : timeUnit true 1800000000000 = (30, 0, 3) ∧ timeUnit true 3725000000000 = (1, 2, 4) := by decide
+
+/-- the table as it is agrees with the repaired one for every time below 24 minutes -/
+theorem c15_time_unit_prefix_below_24min (ns : Nat) (h : ns < 1440000000000) :
+    timeUnit false ns = timeUnit true ns :=
+  timeUnit_prefix_small ns h
+
+/-- C15-TIMEUNIT witness (the table as it is has 24 where the minutes per hour belong): a call of
+    30 minutes is shown as "1.006 h", one of exactly one hour as "2.012 h", one of 100 hours as
+    "250.000 h" — none of which denotes the time (1 h 6 min = 3960 s ≠ 1800 s). -/
+theorem c15_prefix_time_unit_hours_witness :
+    timeUnit false 1800000000000 = (1, 6, 4) ∧ timeUnit false 3600000000000 = (2, 12, 4) ∧
+    timeUnit false 360000000000000 = (250, 0, 4) ∧
+    ¬ (1 * unitNs 4 + 6 * subNs 4 ≤ 1800000000000) := by decide
+
+/-! ## scheduling events -/
+
+/-- C15-DUMP-PREEMPT witness.  main { foo { <pre-empted: sched-out 3000, sched-in 4000> bar {} } }.  A
+    scheduling event is shown as a call named linux:schedule (sched-out opens it, sched-in closes it); for
+    the repaired code that is a record sequence like any other and `c15_chrome_balanced`,
+    `c15_path_count_time`, `c15_edge_counts` apply.  As it is, `dump_replay_event` does not hand the
+    sched-out of a PRE-EMPTED task to the dump callbacks: `dump --chrome` prints an E event that closes
+    nothing (not balanced), and in the trie of --flame-graph / --graphviz / --mermaid the sched-in closes
+    foo instead, so bar is counted under main;bar and the edge foo -> bar is missing. -/
+theorem c15_prefix_preempt_witness :
+    let recs (sched : Name) : List Rec :=
+      [⟨1, true, b!"main", 2000⟩, ⟨1, true, b!"foo", 2100⟩, ⟨1, true, sched, 3000⟩,
+       ⟨1, false, b!"linux:schedule", 4000⟩, ⟨1, true, b!"bar", 5000⟩, ⟨1, false, b!"bar", 5100⟩,
+       ⟨1, false, b!"foo", 9000⟩, ⟨1, false, b!"main", 9100⟩]
+    let asIs := dropEntries isPreMark (outs [1] (recs (b!"linux:schedule" ++ [0])))
+    let repaired := outs [1] (recs b!"linux:schedule")
+    balRun [] (evsOf 1 asIs) = none ∧ balRun [] (evsOf 1 repaired) = some [] ∧
+    callsN (build none (G.init b!"prog") asIs).root [b!"main", b!"bar"] = 1 ∧
+    callsN (build none (G.init b!"prog") asIs).root [b!"main", b!"foo", b!"bar"] = 0 ∧
+    callsN (build none (G.init b!"prog") repaired).root [b!"main", b!"foo", b!"bar"] = 1 ∧
+    callsN (build none (G.init b!"prog") repaired).root [b!"main", b!"foo", b!"linux:schedule"] = 1 := by
+  decide
+
 /-- non-vacuity: main { f { } g { (still open) — two tasks interleaved -/
 example : WF RS.init [⟨1, true, b!"main", 10⟩, ⟨2, true, b!"main", 11⟩, ⟨1, true, b!"f", 12⟩,
     ⟨1, false, b!"f", 15⟩, ⟨1, true, b!"g", 15⟩] := by
